@@ -877,6 +877,9 @@ def run(ctx):
     ]
     import translate                 # decision-logic functions re-translated from the source and proved equal to the model
     _tm, _tt = translate.wire(ctx, "C15")
+    import oncode_thms               # the property theorems stated on the regenerated definitions themselves (Props/OnCode)
+    _om, _ot = oncode_thms.wire("C15")
+    _tm, _tt = _tm + _om, _tt + _ot
     ctx.prove(["TLX.Props.C15"] + _tm)
     ctx.require_theorems(_tt)
     ctx.require_theorems(THEOREMS)
